@@ -21,6 +21,7 @@
 #include <mm/auto_ckpt.h>
 #include <mm/msg_allocator.h>
 #include <serial/serial.h>
+#include <verif/hooks.h>
 
 /// The flag used in ScheduleNewEvent() to keep track of silent execution
 static __thread bool silent_processing = false;
@@ -62,10 +63,12 @@ void ScheduleNewEvent(lp_id_t receiver, simtime_t timestamp, unsigned event_type
 	if(dest_nid != nid) {
 		mpi_remote_msg_send(msg, dest_nid);
 		array_push(current_lp->p.p_msgs, mark_msg_remote(msg));
+		VERIF_POINT(VP_SEND_REMOTE, msg, current_lp - lps, dest_nid, 0);
 	} else {
 		atomic_store_explicit(&msg->flags, 0U, memory_order_relaxed);
 		msg_queue_insert(msg);
 		array_push(current_lp->p.p_msgs, mark_msg_sent(msg));
+		VERIF_POINT(VP_SEND_LOCAL, msg, current_lp - lps, 0, 0);
 	}
 }
 
@@ -82,6 +85,7 @@ static inline void checkpoint_take(struct lp_ctx *lp)
 	stats_take(STATS_CKPT_SIZE, lp->mm_state.full_ckpt_size);
 	stats_take(STATS_CKPT, 1);
 	stats_take(STATS_CKPT_TIME, timer_hr_value(t));
+	VERIF_POINT(VP_CKPT, lp - lps, array_count(lp->p.p_msgs), lp->mm_state.full_ckpt_size, 0);
 }
 
 /**
@@ -101,6 +105,7 @@ void process_lp_init(struct lp_ctx *lp)
 	common_msg_process(lp, msg);
 	lp->p.bound = 0.0;
 	array_push(lp->p.p_msgs, msg);
+	VERIF_POINT(VP_LP_INIT, lp - lps, msg, 0, 0);
 	model_allocator_checkpoint_next_force_full(&lp->mm_state);
 	checkpoint_take(lp);
 }
@@ -112,6 +117,7 @@ void process_lp_fini(struct lp_ctx *lp)
 {
 	current_lp = lp;
 	global_config.dispatcher(lp - lps, 0, LP_FINI, NULL, 0, lp->state_pointer);
+	VERIF_POINT(VP_LP_FINI, lp - lps, 0, 0, 0);
 
 	for(array_count_t i = 0; i < array_count(lp->p.p_msgs); ++i) {
 		struct lp_msg *msg = array_get_at(lp->p.p_msgs, i);
@@ -173,11 +179,13 @@ static inline void send_anti_messages(struct process_ctx *proc_p, array_count_t 
 				msg = unmark_msg_remote(msg);
 				nid_t dest_nid = lid_to_nid(msg->dest);
 				mpi_remote_anti_msg_send(msg, dest_nid);
+				VERIF_POINT(VP_ANTI_REMOTE, msg, dest_nid, 0, 0);
 				msg_allocator_free_at_gvt(msg);
 			} else {
 				msg = unmark_msg_sent(msg);
 				uint32_t f =
 				    atomic_fetch_add_explicit(&msg->flags, MSG_FLAG_ANTI, memory_order_relaxed);
+				VERIF_POINT(VP_ANTI_LOCAL, msg, f, 0, 0);
 				if(f & MSG_FLAG_PROCESSED)
 					msg_queue_insert(msg);
 			}
@@ -187,6 +195,7 @@ static inline void send_anti_messages(struct process_ctx *proc_p, array_count_t 
 		}
 
 		uint32_t f = atomic_fetch_add_explicit(&msg->flags, -MSG_FLAG_PROCESSED, memory_order_relaxed);
+		VERIF_POINT(VP_UNDO, msg, f, 0, 0);
 		if(!(f & MSG_FLAG_ANTI))
 			msg_queue_insert(msg);
 		stats_take(STATS_MSG_ROLLBACK, 1);
@@ -202,11 +211,14 @@ static inline void send_anti_messages(struct process_ctx *proc_p, array_count_t 
 static void do_rollback(struct lp_ctx *lp, array_count_t past_i)
 {
 	timer_uint t = timer_hr_new();
+	VERIF_POINT(VP_RB_BEGIN, lp - lps, past_i, 0, 0);
 	send_anti_messages(&lp->p, past_i);
 	array_count_t last_i = model_allocator_checkpoint_restore(&lp->mm_state, past_i);
+	VERIF_POINT(VP_RESTORE, lp - lps, last_i, past_i, lp->mm_state.full_ckpt_size);
 	stats_take(STATS_RECOVERY_TIME, timer_hr_value(t));
 	stats_take(STATS_ROLLBACK, 1);
 	silent_execution(lp, last_i, past_i);
+	VERIF_POINT(VP_RB_END, lp - lps, last_i, past_i, 0);
 }
 
 /**
@@ -266,6 +278,7 @@ static inline void handle_remote_anti_msg(struct lp_ctx *lp, struct lp_msg *a_ms
 			// Sadly this is an early remote anti-message
 			a_msg->next = lp->p.early_antis;
 			lp->p.early_antis = a_msg;
+			VERIF_POINT(VP_EARLY_STORE, lp - lps, a_msg, 0, 0);
 			return;
 		}
 		msg = array_get_at(lp->p.p_msgs, --i);
@@ -280,6 +293,7 @@ static inline void handle_remote_anti_msg(struct lp_ctx *lp, struct lp_msg *a_ms
 	}
 
 	msg->raw_flags |= MSG_FLAG_ANTI;
+	VERIF_POINT(VP_RANTI_MATCH, lp - lps, msg, a_msg, i);
 	do_rollback(lp, i);
 	termination_on_lp_rollback(lp, msg->dest_t);
 	msg_allocator_free(msg);
@@ -300,6 +314,7 @@ static inline bool check_early_anti_messages(struct process_ctx *proc_p, struct 
 	do {
 		if(a_msg->raw_flags == m_id && a_msg->m_seq == m_seq) {
 			*prev_p = a_msg->next;
+			VERIF_POINT(VP_EARLY_MATCH, current_lp - lps, msg, a_msg, 0);
 			msg_allocator_free(msg);
 			msg_allocator_free(a_msg);
 			return true;
@@ -352,6 +367,7 @@ static void handle_straggler_msg(struct lp_ctx *lp, struct lp_msg *msg)
 void process_msg(void)
 {
 	struct lp_msg *msg = msg_queue_extract();
+	VERIF_POINT(VP_EXTRACT, msg, 0, 0, 0);
 	if(unlikely(!msg)) {
 		current_lp = NULL;
 		return;
@@ -369,6 +385,7 @@ void process_msg(void)
 	}
 
 	uint32_t flags = atomic_fetch_add_explicit(&msg->flags, MSG_FLAG_PROCESSED, memory_order_relaxed);
+	VERIF_POINT(VP_FLAG, msg, flags, 0, 0);
 	if(unlikely(flags & MSG_FLAG_ANTI)) {
 		handle_anti_msg(lp, msg, flags);
 		lp->p.bound = unlikely(array_is_empty(lp->p.p_msgs)) ? -1.0 : lp->p.bound;
@@ -388,6 +405,7 @@ void process_msg(void)
 	common_msg_process(lp, msg);
 	lp->p.bound = msg->dest_t;
 	array_push(lp->p.p_msgs, msg);
+	VERIF_POINT(VP_EXEC, lp - lps, msg, 0, 0);
 
 	auto_ckpt_register_good(&lp->auto_ckpt);
 	if(auto_ckpt_is_needed(&lp->auto_ckpt))
